@@ -18,7 +18,7 @@ Definition ptype_eqb (a b : ptype) : bool := type_code a =? type_code b.
 
 Inductive pval :=
 | VInt (v : Z) | VLong (v : Z) | VBig (v : Z) | VEnum (v : Z) | VBool (b : bool)
-| VText (cs : list Z)            (* one code point per character *)
+| VText (cs : list Z)            (* the UTF-8 bytes of the text *)
 | VBytes (bs : bytes) | VDate (v : Z) | VInterval (v : Z).
 
 Definition ptype_of (p : pval) : ptype :=
@@ -60,7 +60,35 @@ Definition big_bytes (v : Z) : bytes :=
 
 (* ---------- encoders (None = the Python raises) ---------- *)
 
-Definition ascii_ok (c : Z) : bool := (0 <=? c) && (c <? 128).
+(* str.encode('utf-8') / bytes.decode('utf-8') (strict): a text value is represented by its UTF-8
+   bytes; text_ok says that a byte sequence is well-formed UTF-8 as CPython's strict decoder accepts it
+   (no overlong forms, no surrogates U+D800..U+DFFF, nothing above U+10FFFF, no truncated sequence) *)
+Definition cont (b : Z) : bool := (128 <=? b) && (b <=? 191).
+Definition inr (lo hi b : Z) : bool := (lo <=? b) && (b <=? hi).
+Fixpoint utf8_valid (bs : list Z) : bool :=
+  match bs with
+  | [] => true
+  | b0 :: r =>
+      if inr 0 127 b0 then utf8_valid r
+      else if inr 194 223 b0 then
+        match r with b1 :: r1 => cont b1 && utf8_valid r1 | _ => false end
+      else if inr 224 239 b0 then
+        match r with
+        | b1 :: b2 :: r2 =>
+            (if b0 =? 224 then inr 160 191 b1 else if b0 =? 237 then inr 128 159 b1 else cont b1)
+            && cont b2 && utf8_valid r2
+        | _ => false
+        end
+      else if inr 240 244 b0 then
+        match r with
+        | b1 :: b2 :: b3 :: r3 =>
+            (if b0 =? 240 then inr 144 191 b1 else if b0 =? 244 then inr 128 143 b1 else cont b1)
+            && cont b2 && cont b3 && utf8_valid r3
+        | _ => false
+        end
+      else false
+  end.
+Definition text_ok (cs : list Z) : bool := utf8_valid cs.
 
 Definition with_hdr (tag ty len : Z) (body : bytes) : option bytes :=
   match hdr tag ty len with Some h => Some (h ++ body) | None => None end.
@@ -80,7 +108,7 @@ Definition enc_prim (tag : Z) (p : pval) : option bytes :=
       then with_hdr tag 5 4 (be_enc 4 v ++ be_enc 4 0) else None
   | VBool b => with_hdr tag 6 8 (be_enc 8 (if b then 1 else 0))
   | VText cs =>
-      if forallb ascii_ok cs                                     (* pack('!c', ch.encode()) needs one byte *)
+      if text_ok cs                                              (* the UTF-8 bytes of the str *)
       then with_hdr tag 7 (zlen cs) (cs ++ zpad (zlen cs)) else None
   | VBytes bs => with_hdr tag 8 (zlen bs) (bs ++ zpad (zlen bs))
   | VDate v =>
@@ -195,7 +223,7 @@ Definition dec_prim (enum_mem : Z -> bool) (t : ptype) (tag : Z) (bs : bytes) : 
           end
       | PText =>
           match dec_padded len r with
-          | Some (v, r') => if forallb ascii_ok v then Some (VText v, r') else None   (* bytes.decode() of a byte >= 0x80 raises *)
+          | Some (v, r') => if text_ok v then Some (VText v, r') else None   (* bytes.decode('utf-8') raises on ill-formed input *)
           | None => None
           end
       | PBytes =>
@@ -215,7 +243,7 @@ Definition wf_prim (enum_mem : Z -> bool) (p : pval) : bool :=
   | VEnum v => (0 <=? v) && (v <? TWO32) && enum_mem v
   | VInterval v => (0 <=? v) && (v <? TWO32)
   | VBool _ => true
-  | VText cs => forallb ascii_ok cs && (zlen cs <? TWO32)
+  | VText cs => text_ok cs && (zlen cs <? TWO32)
   | VBytes bs => bytes_ok bs && (zlen bs <? TWO32)
   end.
 
